@@ -201,8 +201,8 @@ def g_ham(c):
         return f"(HHubbard {g_coup(h['t'])} {glist(Ul, lambda x: gq(Fraction(*x)))})"
     if k == "kitaev":
         return "(HKitaev " + " ".join(gq(Fraction(*x)) for x in h["c"]) + ")"
-    es = glist(h["edges"], lambda e: f"({gz(e[0])}, {gz(e[1])}, {OPC[e[2]]}, {gq(Fraction(*e[3]))})")
-    ns = glist(h["nodes"], lambda v: f"({gz(v[0])}, {LETC[v[1]]}, {gq(Fraction(*v[2]))})")
+    es = glist(h["edges"], lambda e: f"(CE {gz(e[0])} {gz(e[1])} {OPC[e[2]]} {gq(Fraction(*e[3]))})")
+    ns = glist(h["nodes"], lambda v: f"(ND {gz(v[0])} {LETC[v[1]]} {gq(Fraction(*v[2]))})")
     return f"(HCustom {es} {ns})"
 
 
@@ -213,9 +213,9 @@ def g_case(c):
 def g_obs(o):
     if o == "ERR":
         return "None"
-    es = glist(o["edges"], lambda e: f"({gz(e[0])}, {gz(e[1])}, {gz(e[2])})")
-    ts = glist(o["terms"], lambda t: f"({gq(Fraction(*t[1]))}, {glist(t[0], lambda sl: f'({gz(sl[0])}, {LETC[sl[1]]})')})")
-    return f"(Some ({gz(o['nsites'])}, {es}, {ts}))"
+    es = glist(o["edges"], lambda e: f"(ED {gz(e[0])} {gz(e[1])} {gz(e[2])})")
+    ts = glist(o["terms"], lambda t: f"(TM {gq(Fraction(*t[1]))} {glist(t[0], lambda sl: f'(SL {gz(sl[0])} {LETC[sl[1]]})')})")
+    return f"(RS {gz(o['nsites'])} {es} {ts})"
 
 
 # ---------------------------------------------------------------- direct oracles
@@ -340,9 +340,9 @@ def run(ctx):
         c["herm_max"] = 6 if quick else 8
         c["nx"] = True
     obs = ctx.run_impl("c69_impl.py", {"cases": cases})
-    terms = [f"({g_case(c)}, {g_obs(o)})" for c, o in zip(cases, obs)]
+    terms = [f"(CR {g_case(c)} {g_obs(o)})" for c, o in zip(cases, obs)]
     bad = ctx.coq_eval_cases("cases", "From PLV Require Import Disc.LatticeModel.\nRequire Import QArith.", terms,
-                             "check_case", chunk=24 if quick else 60)
+                             "check_case", chunk=(len(terms) + 7) // 8)
     hist = {"errors": 0, "periodic": 0, "order>=2": 0, "self_loops": 0, "multi_tag_pairs": 0, "nx_oracle": 0,
             "herm_matrix": 0, "matrix_coupling": 0}
     kinds, shapes = {}, {}
